@@ -12,6 +12,9 @@ use serde::{Deserialize, Serialize};
 
 #[derive(Debug, Clone, Serialize, Deserialize)]
 pub struct Case {
+    /// integer element types: lattice step multiplier (values reach +-2e5 when large)
+    #[serde(default)]
+    pub int_scale: u32,
     pub chains: usize,
     pub len: usize,
     pub params: Vec<ParamModel>,
@@ -24,7 +27,7 @@ pub struct Case {
 
 fn pm() -> impl Strategy<Value = ParamModel> {
     let kind = prop_oneof![4 => Just(0u8), 4 => Just(1u8), 3 => Just(3u8), 1 => Just(4u8)];
-    let scale = prop_oneof![3 => Just(1.0f64), 2 => 0.05f64..50.0];
+    let scale = prop_oneof![3 => Just(1.0f64), 2 => 0.05f64..50.0, 1 => Just(1e-8f64), 1 => Just(1e-6f64), 1 => Just(3e-4f64), 1 => Just(1e6f64)];
     let locratio = prop_oneof![3 => Just(0.0f64), 3 => -3.0f64..3.0, 2 => -10.0f64..10.0];
     let spread = prop_oneof![2 => Just(0.0f64), 3 => 0.0f64..3.0, 1 => 3.0f64..10.0];
     (kind, -0.9f64..0.95, scale, locratio, spread).prop_map(|(kind, phi, scale, lr, spread)| ParamModel {
@@ -38,11 +41,12 @@ fn pm() -> impl Strategy<Value = ParamModel> {
 
 fn strategy(max_len: usize) -> BoxedStrategy<Case> {
     let len = prop_oneof![4 => 2usize..12, 4 => 12usize..80, 2 => 80usize..600, 1 => 600usize..=max_len];
-    bx((2usize..=16, len, 1usize..=8, 0u8..4, prop_oneof![Just(0.0f64), 0.05f64..0.9, Just(1.0f64)], any::<u64>())
-        .prop_flat_map(|(chains, len, np, etype, stick, data_seed)| {
-            (Just(chains), Just(len), proptest::collection::vec(pm(), np), Just(etype), Just(stick), Just(data_seed))
+    bx((2usize..=16, len, 1usize..=8, 0u8..4, prop_oneof![Just(0.0f64), 0.05f64..0.9, Just(1.0f64)], any::<u64>(), prop_oneof![2 => Just(1u32), 1 => Just(100u32), 1 => Just(8000u32)])
+        .prop_flat_map(|(chains, len, np, etype, stick, data_seed, int_scale)| {
+            (Just(chains), Just(len), proptest::collection::vec(pm(), np), Just(etype), Just(stick), Just(data_seed), Just(int_scale))
         })
-        .prop_map(|(chains, len, params, etype, stick, data_seed)| Case {
+        .prop_map(|(chains, len, params, etype, stick, data_seed, int_scale)| Case {
+            int_scale,
             chains,
             len,
             params,
@@ -80,9 +84,11 @@ fn gen_states(case: &Case) -> (Vec<Vec<Vec<f64>>>, Vec<Vec<f64>>) {
                     let mut x = pm.loc.0 + shift + sc * z;
                     if integer {
                         // integer element types: a lattice with enough resolution
-                        x = (x * 8.0 / pm.scale.0).round();
+                        // (exactly representable in f32 up to 2^24 in magnitude)
+                        let k = case.int_scale.max(1) as f64;
+                        x = ((x / pm.scale.0).clamp(-25.0, 25.0) * 8.0 * k).round();
                         if case.etype == 3 {
-                            x += 1000.0; // u64: keep non-negative
+                            x += 250.0 * k; // u64: keep non-negative
                             x = x.max(0.0);
                         }
                     }
